@@ -36,7 +36,10 @@ RULE = ("nearest groups = (chain, open/closed, query set, single/stacked) x all 
         "(lattice incl. zero vectors and exact threshold hits, float, wrong row counts); "
         "sub-path groups = sliced_at_points and aligned_along_subsegment on simple open (x-monotone, rotated) and "
         "simple closed (star-shaped planar, rotated) polylines with points on/near segments at least 1e-3 away from "
-        "every vertex and from each other, and on lattice polylines whose arg-min is determined (unique by 1e-6*scale "
+        "every vertex and from each other - cycling through every configuration of the two landing positions "
+        "(forward, backward/wrap, to / from the closing edge, both on one segment in either order, both on the closing "
+        "edge in either order; the class name records the configuration actually realised) - and on lattice polylines "
+        "whose arg-min is determined (unique by 1e-6*scale "
         "or tied at one exactly shared vertex); a case is non-trivial when it has a segment and a query; "
         "distinct = distinct spec")
 TRUSTED = ["np.argmin modelled as 'first minimal index' on finite values (NaN ordering not modelled)",
@@ -243,6 +246,50 @@ def point_on(rng, V, closed, s):
     return p.tolist()
 
 
+OPEN_CFGS = ["fwd", "back", "same-fwd", "same-back", "random"]
+CLOSED_CFGS = ["fwd", "to-closing", "from-closing", "wrap", "same-fwd", "same-back", "closing-same-fwd",
+               "closing-same-back", "random"]
+
+
+def directed_pair(rng, V, closed, s, cfg):
+    """two query points on/near a simple polyline in a prescribed configuration of (segment, parameter) positions:
+    forward / backward (wrap on closed polylines), one of them on the closing edge, both on one segment in either order,
+    both on the closing edge in either order.  Falls back to independent random positions when the polyline has too few
+    segments for the configuration."""
+    n = len(V)
+    ne = n if closed else n - 1
+    inner = ne - 1 if closed else ne       # inner segments are 0 .. inner-1
+    t1, t2 = sorted([rng.uniform(0.1, 0.9), rng.uniform(0.1, 0.9)])
+    if t2 - t1 < 0.1:
+        t1, t2 = 0.25, 0.7
+    pos = None
+    if cfg in ("fwd", "back", "wrap") and inner >= 2:
+        i, j = sorted(rng.sample(range(inner), 2))
+        pos = ((i, rng.uniform(0.1, 0.9)), (j, rng.uniform(0.1, 0.9)))
+        if cfg != "fwd":
+            pos = (pos[1], pos[0])
+    elif cfg == "to-closing" and closed and inner >= 1:
+        pos = ((rng.randrange(inner), rng.uniform(0.1, 0.9)), (n - 1, rng.uniform(0.1, 0.9)))
+    elif cfg == "from-closing" and closed and inner >= 1:
+        pos = ((n - 1, rng.uniform(0.1, 0.9)), (rng.randrange(inner), rng.uniform(0.1, 0.9)))
+    elif cfg in ("same-fwd", "same-back") and inner >= 1:
+        i = rng.randrange(inner)
+        pos = ((i, t1), (i, t2)) if cfg == "same-fwd" else ((i, t2), (i, t1))
+    elif cfg in ("closing-same-fwd", "closing-same-back") and closed:
+        pos = ((n - 1, t1), (n - 1, t2)) if cfg == "closing-same-fwd" else ((n - 1, t2), (n - 1, t1))
+    if pos is None:
+        return point_on(rng, V, closed, s), point_on(rng, V, closed, s)
+    pairs = edge_pairs(n, closed)
+    out = []
+    for (k, t) in pos:
+        i0, i1 = pairs[k]
+        p = np.array(V[i0]) + t * (np.array(V[i1]) - np.array(V[i0]))
+        if rng.random() < 0.5:
+            p = p + np.array(gens.unit(rng)) * s * 10.0 ** rng.uniform(-7, -2.5)
+        out.append(p.tolist())
+    return out[0], out[1]
+
+
 def lattice_path(rng):
     """lattice polyline for the sub-path stream (no forced repeats; the determinedness filter drops the bad ones)"""
     d = rng.choice([1, 2])
@@ -290,7 +337,7 @@ def gen(rng, tier):
     for i in range(n_seg):
         yield {"op": "segfn", "stream": "lattice" if i % 2 == 0 else "float", "k": rng.choice([0, 1, 2, 3, 5, 9]),
                "bad": rng.random() < 0.08, "seed": rng.randrange(1 << 30)}
-    n_sub = 300 if quick else 4000
+    n_sub = 360 if quick else 4000
     for i in range(n_sub):
         u = i % 3
         if u == 0:
@@ -307,8 +354,8 @@ def gen(rng, tier):
             kind = "lattice"
             s = 1.0
         if kind == "simple":
-            a = point_on(rng, V, closed, s)
-            b = point_on(rng, V, closed, s)
+            cfgs = CLOSED_CFGS if closed else OPEN_CFGS
+            a, b = directed_pair(rng, V, closed, s, cfgs[(i // 3) % len(cfgs)])
         else:
             a, b = lattice_queries(rng, V, 2, True)
             if rng.random() < 0.1:
@@ -663,6 +710,19 @@ def expected_subpath(V, closed, ia, sa, pa, ib, sb, pb):
     return [pa] + mid + [pb]
 
 
+def config_label(n, closed, ia, sa, ib, sb):
+    """which case of sliced_at_points this is, from the exact landing positions (segment, parameter) of a and b"""
+    if (ia, sa) == (ib, sb):
+        base = "same-point"
+    elif ia == ib:
+        base = "same-fwd" if sa < sb else "same-back"
+    else:
+        base = "fwd" if ia < ib else "back"
+    if closed and (ia == n - 1 or ib == n - 1):
+        base += "+closing-" + ("a" if ia == n - 1 else "") + ("b" if ib == n - 1 else "")
+    return base
+
+
 def path_length(P):
     return sum(fsqrt(vdot(vsub(b, a), vsub(b, a))) for a, b in zip(P[:-1], P[1:]))
 
@@ -696,7 +756,7 @@ def make_subpath(spec):
                 if m != 0 and m < Fraction(1e-6):
                     return None
     pl = Polyline(V.copy(), is_closed=closed)
-    kl = "subpath/%s/%s" % (spec["kind"], "closed" if closed else "open")
+    kl = "subpath/%s/%s/%s" % (spec["kind"], "closed" if closed else "open", config_label(len(V), closed, ia, sa, ib, sb))
 
     def canon_pl(p):
         return [bool(p.is_closed)] + counted(p.v)
@@ -990,6 +1050,18 @@ def oracle_subpath(V, closed, a, b, ea, eb, scale):
             if (ja, ta) > (jb, tb):
                 out.append(("aligned/forward", "aligned_along_subsegment on %s: in the result the point nearest a (segment %d, t=%r) "
                             "comes after the point nearest b (segment %d, t=%r)" % (desc, ja, float(ta), jb, float(tb))))
+            else:
+                # ... and there the sub-path runs forward: sliced_at_points on the returned polyline yields it
+                expw = expected_subpath(W, False, ja, ta, qa, jb, tb, qb)
+                try:
+                    rw = al.sliced_at_points(a.copy(), b.copy())
+                    if rw.is_closed or not same(rw.v.tolist(), expw):
+                        out.append(("aligned/forward-subpath", "on the result of aligned_along_subsegment on %s sliced_at_points "
+                                    "returned %s, expected the forward sub-path %s"
+                                    % (desc, rw.v.tolist(), [[float(x) for x in p] for p in expw])))
+                except Exception as e:  # noqa: BLE001
+                    out.append(("aligned/forward-subpath", "on the result of aligned_along_subsegment on %s sliced_at_points "
+                                "raised %s: %s" % (desc, type(e).__name__, e)))
         else:
             fwd = expected_subpath(W, True, ja, ta, qa, jb, tb, qb)
             bwd = expected_subpath(W, True, jb, tb, qb, ja, ta, qa)
